@@ -8,7 +8,7 @@ CONSTANTS
   MaxDev = 3
   MaxSteps = 99
   Seeded = FALSE
-  Vary = {"post", "refresh"}
+  Vary = {"post", "refresh", "dyn"}
   Narrow = TRUE
   Depth = 12
 INVARIANT Emit
